@@ -318,6 +318,14 @@ pub fn build_scenario(rng: &mut Rng, mapping: Vec<u8>, max_threads: u64, jobs_pe
                 _ => None,
             };
             let via_clone = rng.chance(1, 5);
+            // ("a.b", "c") is sometimes preceded by the same dotted path split elsewhere: ("a", "b.c")
+            if let Query::Method(c, m) = &q {
+                if let Some(dot) = c.rfind('.') {
+                    if rng.chance(1, 3) {
+                        b.push(Job { target, q: Query::Method(c[..dot].to_string(), format!("{}.{}", &c[dot + 1..], m)), set, via_clone });
+                    }
+                }
+            }
             b.push(Job { target, q, set, via_clone });
             if let Some(sq) = sibling {
                 b.push(Job { target, q: sq, set, via_clone });
@@ -532,6 +540,12 @@ pub fn run_scenario(sc: &Scenario, use_baton: bool) -> ScenarioResult {
     }
     if violation.is_none() {
         violation = std::thread::scope(|s| s.spawn(|| churn_phase(inputs)).join().unwrap_or(None));
+    }
+    // long scenarios also hammer single queries on the long-lived shared handles
+    if violation.is_none() && sc.batches.iter().any(|b| b.len() >= 300) {
+        let sh = shared.get();
+        let jobs: Vec<&Job> = distinct.iter().copied().collect();
+        violation = std::thread::scope(|s| s.spawn(|| repeat_phase(sh, &jobs, &reference)).join().unwrap_or(None));
     }
     // one scenario in 6 / in 12 (by its baton seed; thread creation is the cost): pool workers over handle generations, iterator hand-off
     if violation.is_none() && sc.baton_seed % 6 == 0 {
@@ -813,6 +827,33 @@ fn handoff_phase(inputs: &Inputs) -> Option<(String, String)> {
     None
 }
 
+/// One query repeated tens of thousands of times on one long-lived handle (hit counters reaching
+/// 16-bit limits, usage statistics that age, ...), then everything asked once more.
+fn repeat_phase<'b, 'm, 'c: 'b, 'p: 'b>(sh: &'b Shared<'m, 'c, 'p>, jobs: &'b [&'b Job], reference: &[String]) -> Option<(String, String)> {
+    const REPEATS: usize = 70_000;
+    for (k, job) in jobs.iter().enumerate().filter(|(_, j)| matches!(j.q, Query::Method(..) | Query::Class(_) | Query::Signature(_))).take(3) {
+        for r in 0..REPEATS {
+            let got = guarded_answer(sh, job, &mut || false);
+            if got != reference[k] {
+                return Some((
+                    format!("answer-changes-after-many-repetitions target={}", job.target.name()),
+                    format!("{} answered {:?} the first time and {:?} at repetition {} on the same handle", job.describe(), reference[k], got, r),
+                ));
+            }
+        }
+    }
+    for (k, job) in jobs.iter().enumerate() {
+        let got = guarded_answer(sh, job, &mut || false);
+        if got != reference[k] {
+            return Some((
+                format!("answer-changes-after-many-repetitions target={}", job.target.name()),
+                format!("after 70000 repetitions of other queries {} answers {:?}, alone {:?}", job.describe(), got, reference[k]),
+            ));
+        }
+    }
+    None
+}
+
 fn violates(sc: &Scenario, class: &str) -> bool {
     matches!(run_scenario(sc, true).violation, Some((c, _)) if c == class)
 }
@@ -894,6 +935,19 @@ pub fn minimise(v: &Violation) -> Violation {
 }
 
 pub fn replay(doc: &Value) -> i32 {
+    if doc["case"]["phase"].as_str() == Some("capacity") {
+        let seed: u64 = doc["case"]["seed"].as_str().and_then(|s| s.parse().ok()).unwrap_or(0);
+        return match capacity_phase(seed) {
+            Some(v) => {
+                println!("reproduced: class={} :: {}", v.class, v.message);
+                1
+            }
+            None => {
+                println!("not reproduced (free-running phase: the schedule is not recorded)");
+                0
+            }
+        };
+    }
     let Some(sc) = Scenario::from_json(&doc["case"]) else {
         eprintln!("replay: malformed C20 case");
         return 2;
@@ -920,9 +974,133 @@ pub fn replay(doc: &Value) -> i32 {
     }
 }
 
+/// Capacity phase — the second place (after C14's overlap phase) where the simulator does NOT decide the
+/// interleaving. One long-lived handle set over a mapping with 5 000 classes first serves thousands of
+/// distinct keys from a single thread (memo structures reach their capacity), then eight unconstrained
+/// threads issue new distinct keys, class lookups and typed traces with cause chains at the same time.
+/// Lock-order inversions and re-entrant read locks inside the library only bite when two callers are
+/// really inside a call together; under the baton exactly one thread runs. Oracle: every answer
+/// equals the alone answer, and everything returns within 30 s (a hang is the verdict). A failure here
+/// is replayed by re-running the phase, not from a recorded schedule.
+fn capacity_phase(seed: u64) -> Option<Violation> {
+    (0..3).find_map(|round| capacity_round(seed, round))
+}
+
+fn capacity_round(seed: u64, round: u64) -> Option<Violation> {
+    let mut rng = Rng::new(run_seed(seed, "C20.capacity", round));
+    let mut mapping: Vec<u8> = Vec::new();
+    for c in 0..5000 {
+        mapping.extend_from_slice(format!("com.example.k{}.Type{} -> k{}.c{}:\n    1:3:void run{}():10:12 -> a\n", c % 31, c, c % 17, c, c % 7).as_bytes());
+    }
+    let inputs = Inputs::new(&[mapping])?;
+    let names: Vec<String> = (0..5000).map(|c| format!("k{}.c{}", c % 17, c)).collect();
+    let job = |t: usize, i: usize, names: &[String]| -> Job {
+        let c = &names[(i * 7 + t * 13) % names.len()];
+        let q = match (i + t) % 5 {
+            0 | 3 => Query::Signature(format!("(L{};Lunknown/T{}x{};)L{};", c.replace('.', "/"), t, i, c.replace('.', "/"))),
+            1 => Query::Class(format!("missing.T{}x{}", t, i)),
+            2 => Query::TraceTyped(format!("{}: top\n    at {}.a(SourceFile:2)\nCaused by: {}: inner\n    at {}.a(SourceFile:1)\nCaused by: missing.C{}: deep\n", c, c, c, c, i)),
+            _ => Query::Method(c.clone(), "a".into()),
+        };
+        Job { via_clone: false, set: 0, target: if (i / 5) % 2 == 0 { Target::Cache } else { Target::MapperParams }, q }
+    };
+    let per_thread = 6000usize;
+    let n_threads = 8usize;
+    let _ = rng.next_u64();
+    let (tx, rx) = std::sync::mpsc::channel::<Option<(String, String)>>();
+    // the worker threads are detached on purpose: if they dead-lock they can never be joined
+    let inputs: &'static Inputs = Box::leak(Box::new(inputs));
+    let names: &'static Vec<String> = Box::leak(Box::new(names));
+    std::thread::spawn(move || {
+        let Some(shared) = Shared::build_with(inputs, false) else {
+            let _ = tx.send(None);
+            return;
+        };
+        let shared: &'static ForceShare<Shared<'static, 'static, 'static>> = Box::leak(Box::new(ForceShare(shared)));
+        let fresh: &'static ForceShare<Shared<'static, 'static, 'static>> = match Shared::build_with(inputs, false) {
+            Some(f) => Box::leak(Box::new(ForceShare(f))),
+            None => {
+                let _ = tx.send(None);
+                return;
+            }
+        };
+        // warm-up: thousands of distinct keys from one thread
+        for (i, c) in names.iter().enumerate() {
+            let _ = i;
+            for target in [Target::Cache, Target::MapperParams, Target::Mapper] {
+                let j = Job { via_clone: false, set: 0, target, q: Query::Signature(format!("(L{};Lwarm/U{};)V", c.replace('.', "/"), i)) };
+                let _ = guarded_answer(shared.get(), &j, &mut || false);
+            }
+            let j2 = Job { via_clone: false, set: 0, target: Target::Cache, q: Query::Class(c.clone()) };
+            let _ = guarded_answer(shared.get(), &j2, &mut || false);
+        }
+        let barrier = std::sync::Arc::new(std::sync::Barrier::new(n_threads));
+        let (dtx, drx) = std::sync::mpsc::channel::<Option<(String, String)>>();
+        for t in 0..n_threads {
+            let barrier = barrier.clone();
+            let dtx = dtx.clone();
+            std::thread::spawn(move || {
+                barrier.wait();
+                for i in 0..per_thread {
+                    let j = job(t, i, names);
+                    let got = guarded_answer(shared.get(), &j, &mut || false);
+                    let alone = guarded_answer(fresh.get(), &j, &mut || false);
+                    if got != alone {
+                        let _ = dtx.send(Some((
+                            format!("parallel-answer-differs-at-capacity target={}", j.target.name()),
+                            format!("thread {} call {} {}: on the loaded shared handles {:?}, on handles nobody else uses {:?}", t, i, j.describe(), got, alone),
+                        )));
+                        return;
+                    }
+                }
+                let _ = dtx.send(None);
+            });
+        }
+        drop(dtx);
+        let mut verdict = None;
+        for _ in 0..n_threads {
+            match drx.recv() {
+                Ok(Some(v)) => {
+                    verdict = Some(v);
+                    break;
+                }
+                Ok(None) => {}
+                Err(_) => break,
+            }
+        }
+        let _ = tx.send(verdict);
+    });
+    match rx.recv_timeout(std::time::Duration::from_secs(30)) {
+        Ok(None) => None,
+        Ok(Some((class, message))) => Some(Violation { property: "C20".into(), run: 0, class, message, case: json!({"phase": "capacity", "seed": seed.to_string(), "note": "free-running threads: replay = re-run `pgsim c20-capacity --seed <seed>`"}) }),
+        Err(_) => Some(Violation {
+            property: "C20".into(),
+            run: 0,
+            class: "queries-do-not-terminate-under-parallel-load".into(),
+            message: "capacity phase: eight threads on one long-lived handle set (5000 classes, memo structures at capacity) did not finish within 30 s — a dead-lock inside the library".into(),
+            case: json!({"phase": "capacity", "seed": seed.to_string(), "note": "free-running threads: replay = re-run `pgsim c20-capacity --seed <seed>`"}),
+        }),
+    }
+}
+
+/// `pgsim c20-capacity`: the capacity phase alone (also the replay of a violation found by it).
+pub fn capacity_main(env: &Env) -> i32 {
+    match capacity_phase(env.seed) {
+        Some(v) => {
+            println!("violation class: {}", v.class);
+            println!("violation: {}", v.message);
+            1
+        }
+        None => {
+            println!("capacity phase ok");
+            0
+        }
+    }
+}
+
 pub fn main(env: &Env) -> i32 {
     let mut rep = Report::new("C20", "exploration", env);
-    rep.expected_probes = vec!["policy.uniform", "policy.pct", "policy.run_to_completion", "runs_with_nested_queries_inside_iterator_steps", "context_switches", "scheduling_points", "threads.2", "threads.12", "runs_with_two_handle_sets", "runs_with_forked_iterators", "long_runs_300_plus_calls_per_thread", "jobs_via_cloned_handles", "jobs_on_mapping_sections"];
+    rep.expected_probes = vec!["policy.uniform", "policy.pct", "policy.run_to_completion", "runs_with_nested_queries_inside_iterator_steps", "context_switches", "scheduling_points", "threads.2", "threads.12", "runs_with_two_handle_sets", "runs_with_forked_iterators", "long_runs_300_plus_calls_per_thread", "jobs_via_cloned_handles", "jobs_on_mapping_sections", "capacity_phase_runs"];
     rep.real.push("real std::thread OS threads, real thread-locals, real lazy_static Once behind ProguardMapping::uuid".into());
     rep.stubs = vec!["the scheduler: a seeded baton releases exactly one thread at a time; scheduling points between library calls and between next() calls of frame iterators".into()];
     rep.assumptions = vec![
@@ -992,7 +1170,14 @@ pub fn main(env: &Env) -> i32 {
         }
         st.run_done(r.log);
     });
-    let vs: Vec<Violation> = vs.drain(..).take(2).map(|v| minimise(&v)).collect();
+    let mut vs: Vec<Violation> = vs.drain(..).take(2).map(|v| minimise(&v)).collect();
+    let mut st = st;
+    if vs.is_empty() {
+        st.inc("capacity_phase_runs");
+        if let Some(v) = capacity_phase(seed) {
+            vs.push(v);
+        }
+    }
     rep.write(&st, st.runs, st.distinct.len() as u64, vs.len(), None);
     println!(
         "C20 {}: scenarios={} jobs={} scheduling_points={} context_switches={} distinct_schedules={} digest={:016x}",
